@@ -134,6 +134,19 @@ theorem series_one_value_per_time (k : Nat) (hitss : List (List (Nat × FVal))) 
   have := congrArg List.length h
   simpa using this.symm
 
+/-- One table at one result position (any simulator): once skip_to_table has brought the file to the table, history() finds the
+    first results line with `skip_to_results_line` (`L` = the lines from it on) and what it appends for that table is exactly the
+    one-pass read `scanSel` over `L` — the function the theorems above are about — with the stepping reader's own
+    `read_table_line` and column index of that table. -/
+theorem history_one_table_is_one_scan (tname : String) (ts : List Sel) (env : Rd) (c : Cur) (t : Table) (k n : Nat) (L : List Str)
+    (ht : env.tables.lookup tname = some t) (hne : t.cols ≠ [])
+    (hs : skipToResultsLineL (expectedOf tname t) c.pos.rest c.pos.no 1 = some (k, ⟨n, L⟩)) :
+    (historyTable tname ts env c).map (·.1)
+      = match scanSel (readTableLineOf env.fam t) (colIdx t.cols) ts 0 (L.headD []) L.tail with
+        | .ok (hits, _) => .ok hits
+        | .error e => .error (.py e) :=
+  historyTable_eq_scan tname ts env c t k n L ht hne hs
+
 -- an AUTOUGH2-style file with two result times, an element table of two rows; items: T of row 1 (by index), P of row 'A 1' (by name)
 private def exR1 : List Str := [" OUTPUT\n".toList, " EEEEE\n".toList, "\n".toList, " A 1  1  1.5 2.5\n".toList, " B 1  2  3.5 4.5\n".toList, " EEEEE\n".toList]
 private def exR2 : List Str := [" OUTPUT\n".toList, " EEEEE\n".toList, "\n".toList, " A 1  1  5.5 6.5\n".toList, " B 1  2  7.5 8.5\n".toList, " EEEEE\n".toList]
@@ -161,6 +174,10 @@ example : (match orderedSelection exEnv exItems with
     | _ => false) = true := by decide +kernel
 example : [[(1, FVal.fin false 15 (-1)), (0, .fin false 45 (-1))], [(1, .fin false 55 (-1)), (0, .fin false 85 (-1))]].map (seriesOf 0)
     = [FVal.fin false 45 (-1), .fin false 85 (-1)].map (fun v => [v]) := by decide
+
+example : exEnv.tables.lookup "element" = some exTA := rfl
+example : exTA.cols ≠ [] ∧ (skipToResultsLineL (expectedOf "element" exTA) (exR1.drop 2) 2 1).map (fun x => (x.1, x.2.no, x.2.rest))
+    = some (2, 3, exR1.drop 3) := by decide +kernel
 
 /-! ### a connection named in reverse order yields the negated series -/
 
